@@ -18,6 +18,7 @@ import (
 	"sort"
 	"strings"
 	"sync"
+	"sync/atomic"
 	"time"
 )
 
@@ -68,6 +69,7 @@ type Ctx struct {
 	lineHashQ chan uint64
 	lastCase  *os.File
 	known          []knownPat
+	answered       int64 // atomic: lines answered by the driver
 	knownHits      map[string]int
 	unmatched      map[string]int
 	nUnmatchedKept int
@@ -171,6 +173,7 @@ func (c *Ctx) collect(r io.Reader) {
 		line := <-c.pending
 		hash := <-c.lineHashQ
 		c.evals++
+		atomic.AddInt64(&c.answered, 1)
 		f := strings.Fields(line)
 		if len(f) > 1 {
 			c.ops[f[1]]++
@@ -381,13 +384,31 @@ func closeDriver(cmd *exec.Cmd, c *Ctx) {
 	}
 	done := make(chan struct{})
 	go func() { c.wg.Wait(); close(done) }()
-	select {
-	case <-done:
-	case <-time.After(10 * time.Minute):
-		cmd.Process.Kill()
+	// the driver is killed when it has not answered a single line for 10 minutes (not: when the
+	// whole backlog takes longer than that, which only depends on the load of the machine)
+	last := c.progress()
+	tk := time.NewTicker(time.Minute)
+	defer tk.Stop()
+	idle := 0
+wait:
+	for {
+		select {
+		case <-done:
+			break wait
+		case <-tk.C:
+			if n := c.progress(); n != last {
+				last, idle = n, 0
+			} else if idle++; idle >= 10 {
+				cmd.Process.Kill()
+				break wait
+			}
+		}
 	}
 	cmd.Wait()
 }
+
+// progress: lines answered by the driver so far
+func (c *Ctx) progress() int64 { return atomic.LoadInt64(&c.answered) }
 
 // guard runs f and maps a Go panic to the outcome "panic".
 func guard(f func() string) (out string) {
